@@ -91,6 +91,23 @@ theorem settle_open {s : Sess} {f : Nat} {x : Fut} (hx : s.futs[f]? = some x) (h
       else ({ s with futs := s.futs.set f { x with cell := some o, count := x.count + 1 } }, [.complete f o]) := by
   simp [settle, hx, hc]
 
+theorem settle_tbl (s : Sess) (f : Nat) (o : Outcome) (k : Kind) : (settle s f o).1.tbl k = s.tbl k := by
+  unfold settle
+  split
+  · rfl
+  · split
+    · cases k <;> rfl
+    · split
+      · rw [(emitCb_fields _ _).1 k]; cases k <;> rfl
+      · cases k <;> rfl
+
+
+theorem tbl_subs_update (s1 : Sess) (x : List (SubId × List SubRec)) (k : Kind) : Sess.tbl { s1 with subs := x } k = s1.tbl k := by
+  cases k <;> rfl
+theorem tbl_regs_update (s1 : Sess) (x : List (RegId × RegRec)) (k : Kind) : Sess.tbl { s1 with regs := x } k = s1.tbl k := by
+  cases k <;> rfl
+
+
 theorem settle_inv {s : Sess} (h : Inv s) {f : Nat} (hf : f < s.futs.length) (hc : s.called f = false) (o : Outcome) :
     InvRel s (settle s f o).2 (settle s f o).1 := by
   refine ⟨settle_idrel h.1 f o, ?_⟩
